@@ -29,3 +29,7 @@ func Now() time.Time {
 	}
 	return time.Unix(atomic.LoadInt64(&seq), 0)
 }
+
+// Since and Until replace time.Since / time.Until in instrumented code.
+func Since(t time.Time) time.Duration { return Now().Sub(t) }
+func Until(t time.Time) time.Duration { return t.Sub(Now()) }
